@@ -43,6 +43,14 @@ def canon_piece(body, o, t, item_ok):
         for nm, sym in ((f"{AB}::manual::Method::identifier", "M"), (f"{AB}::manual::Method::name", "Mname")):
             if name_matches(s[1], nm) and item_ok(s[2][0]):
                 return sym
+    if s[0] == "field":
+        # the accessor's field read directly (inside a method of the same type): package() = &self.package,
+        # identifier() = name() = &self.name for a Service; identifier() = &self.route_name, name() = &self.name for a Method
+        base = strip_identity(s[1])
+        if is_param(base, "service") and s[2] in ("package", "name"):
+            return {"package": "P", "name": "S"}[s[2]]
+        if item_ok(base) and s[2] in ("route_name", "name"):
+            return {"route_name": "M", "name": "Mname"}[s[2]]
     return "?" + show(s)[:50]
 
 
@@ -109,7 +117,7 @@ def path_term(body, fmt_call_bb=None, which=0):
                 pieces.append("?phi")
                 continue
             cond = strip_identity(ite[1])
-            okc = cond[0] == "call" and name_matches(cond[1], "core::str::is_empty") and canon_piece(body, o, cond[2][0], item_ok) == "P"
+            okc = cond[0] == "call" and name_matches(cond[1], ("core::str::is_empty", "alloc::string::String::is_empty")) and canon_piece(body, o, cond[2][0], item_ok) == "P"
             pieces.append(("D" if okc and ite[2] == '""' and ite[3] == '"."' else f"?ite({show(cond)[:30]},{ite[2]},{ite[3]})"))
         else:
             pieces.append(canon_piece(body, o, val, item_ok))
